@@ -479,6 +479,73 @@ func c17(c *Ctx) {
 		r.Check("influxdb:field-writes", n >= 3, token.NoPos, fmt.Sprintf("%d constant pieces written to the field list (%d begin with a separator)", n, lead))
 	})
 
+	c.Rule("C17.R9", "a payload builder never extends a tag slice it does not own: append(x.Tags, ...) on the tags of an aggregated series (or of a metric / event) writes into the spare capacity of that series' slice, so the tag lists of later entries built from the same series (histogram buckets, sub-metrics) overwrite each other before the batch is marshalled; the copying Tags.Concat / Tags.Copy are the owning forms", 1, func(r *Rule) {
+		n := 0
+		for _, fn := range backendFuncs(w) {
+			for _, g := range WithAnon(fn) {
+				for _, cl := range callsIn(g) {
+					if !isCall(cl, "builtin append") {
+						continue
+					}
+					a0 := stripConv(cl.Common().Args[0])
+					ld, ok := a0.(*ssa.UnOp)
+					if !ok || ld.Op != token.MUL {
+						continue
+					}
+					t, f, _, ok := fieldRef(ld.X)
+					if !ok || f != "Tags" {
+						continue
+					}
+					switch t {
+					case "Counter", "Gauge", "Timer", "Set", "Metric", "Event":
+						n++
+						r.Fail(FuncName(g)+":appends-to-foreign-tags", cl.Pos(), "append("+pathOf(a0)+", ...) extends the tag slice of a "+t+" in place")
+					}
+				}
+			}
+		}
+		r.Check("no-in-place-extension-of-series-tags", n == 0, token.NoPos, fmt.Sprintf("%d append calls on the Tags field of a series in the backends", n))
+	})
+
+	c.Rule("C17.R10", "the statsd relay withholds exactly the server's own counters: a counter is skipped if and only if its name starts with \"statsd.\" (with the dot: statsdaemon.x, statsd_exporter.y are ordinary series)", 2, func(r *Rule) {
+		pm := w.Func("pkg/backends/statsdaemon", "(*Client).processMetrics")
+		if pm == nil {
+			r.Unresolved("statsdaemon.(*Client).processMetrics")
+			return
+		}
+		cl := eachClosures(pm)["Counters"]
+		if cl == nil {
+			r.Fail("relay:counters", pm.Pos(), "no traversal of the counters")
+			return
+		}
+		nTest := 0
+		for _, cc := range callsIn(cl) {
+			call, ok := cc.(*ssa.Call)
+			if !ok || !isCall(call, "strings.HasPrefix") {
+				continue
+			}
+			nTest++
+			lit, isLit := constString(call.Call.Args[1])
+			r.Check("relay:internal-prefix", isLit && lit == "statsd." && paramIndex(cl, call.Call.Args[0]) == 0, call.Pos(), fmt.Sprintf("the skip test is strings.HasPrefix(name, %q) (must be \"statsd.\")", lit))
+			// the counter is written exactly on the false outcome
+			written := false
+			for _, w2 := range callsIn(cl) {
+				if w2 == cc {
+					continue
+				}
+				if _, isBuiltin := w2.Common().Value.(*ssa.Builtin); isBuiltin {
+					continue
+				}
+				fs := factsAt(w2.Block())
+				if callKnown(fs, func(c2 *ssa.Call) bool { return c2 == call }, false) && len(fs) == 1 {
+					written = true
+				}
+			}
+			r.Check("relay:others-are-written", written, call.Pos(), "every other counter is written (the write stands under exactly the negative outcome of the test)")
+		}
+		r.Check("relay:one-skip-test", nTest == 1, cl.Pos(), fmt.Sprintf("%d prefix tests in the counters traversal", nTest))
+	})
+
 	c.Rule("C17.R4", "hard limits: at most 20 data per CloudWatch call; the statsd relay tests the packet size before every write", 4, func(r *Rule) {
 		cw := w.Func("pkg/backends/cloudwatch", "(*Client).SendMetricsAsync")
 		if cw == nil {
